@@ -7,7 +7,8 @@ ASSUMPTIONS = ["a separator is inserted as the theorem's valid streams allow: a 
                "meaning = accept/reject, the printed syntax tree (s-expression of the exported AST) and the Run results on sample texts; every variant is also compared with the model (CORR-LEX/PARSE)"]
 
 SEPS = [("space", " "), ("newline", "\n"), ("tab run", "\t\t \t"), ("line comment", "-- note\n"), ("line comment after blank", "  -- find all 'x'\n  "),
-        ("block comment", "--( note )--"), ("block comment with blanks", " --( set x to ) )-- \n"), ("block comment multi-line", "--(\n a 'b' \" \n)--"), ("empty line comment", "--\n")]
+        ("block comment", "--( note )--"), ("block comment with blanks", " --( set x to ) )-- \n"), ("block comment multi-line", "--(\n a 'b' \" \n)--"), ("empty line comment", "--\n"),
+        ("block comment ending in )-", "--( see (a)-)--"), ("block comment full of ) and -", "--()) -) )- - -- ))-))--"), ("line comment of dashes", "------\n"), ("empty block comment", "--()--")]
 
 TEXTS = ["", "abc abc\nab 12 Ab\n", "aab ccb a1 'q'\n\tx\r\nend", "The fox 42; a_b. 3+4=7"]
 
